@@ -40,7 +40,12 @@ EvChecks(ev, t) ==
                                       \* C10's own wording: what was transferred = the new epoch's total minus what was rolled over
                                       <<"C10.newepoch.transferred=new-total-minus-rolled-over",
                                          LET x == Expiring(st)
-                                             roll == IF x = 0 THEN Zero ELSE st.eps[x].available
+                                             \* (what the expiring epoch still owed: its total minus what was claimed
+                                             \*  from it - not whatever its `available` field happens to say;
+                                             \*  an epoch that has rolled over before - it can come up again after the
+                                             \*  grace period was raised - has nothing left)
+                                             roll == IF x = 0 \/ st.eps[x].rolled THEN Zero
+                                                     ELSE Monus(st.eps[x].total, st.eps[x].claimed)
                                              e == t.eps[NEp(t)]
                                          IN NEp(t) = NEp(st) + 1 => (roll \preceq e.total /\ ev.out.received = e.total -- roll)>> >>
           ELSE Untouched(t)
